@@ -132,6 +132,35 @@ pub fn crafted_points() -> Vec<(&'static str, [u8; 48])> {
     v
 }
 
+/// A non-trivial point of E(Fp) whose order divides the cofactor: [r]Q for the first small-x
+/// curve point Q outside the prime-order subgroup, by double-and-add on the group law only
+/// (scalar multiplication of the library assumes subgroup points). Adding it to a proof
+/// element changes the bytes but not any pairing value, so only the decoder's subgroup test
+/// stands between such a proof and acceptance.
+pub fn torsion_point() -> G1Projective {
+    let mut x = BigUint::from(1u32);
+    let q: G1Affine = loop {
+        let enc = compressed_from_x(&x, 0x80);
+        let p: Option<G1Affine> = G1Affine::from_bytes_unchecked(&repr_of(&enc)).into();
+        if let Some(p) = p {
+            if !bool::from(p.is_torsion_free()) {
+                break p;
+            }
+        }
+        x += 1u32;
+    };
+    let r = scalar_modulus();
+    let base = G1Projective::from(q);
+    let mut acc = G1Projective::identity();
+    for i in (0..r.bits()).rev() {
+        acc = acc.double();
+        if r.bit(i) {
+            acc += base;
+        }
+    }
+    acc
+}
+
 pub fn scalar_modulus() -> BigUint {
     BigUint::parse_bytes(F::MODULUS.trim_start_matches("0x").as_bytes(), 16).unwrap()
 }
@@ -166,6 +195,7 @@ fn mutations(s: &Subject, thorough: bool, seed: u64, other_vks: &[(&'static str,
     let mut m: Vec<(String, Mutation)> = vec![("none".into(), Mutation::None)];
     let crafted = crafted_points();
     let r_mod = scalar_modulus();
+    let torsion = torsion_point();
     for (i, (off, len, ty)) in s.elements.iter().enumerate() {
         let cur = &s.proof[*off..off + len];
         if *ty == 'G' {
@@ -187,6 +217,9 @@ fn mutations(s: &Subject, thorough: bool, seed: u64, other_vks: &[(&'static str,
             for (class, enc) in &crafted {
                 m.push((format!("el{i}/{class}"), Mutation::Replace { off: *off, bytes: enc.to_vec(), class }));
             }
+            // the element shifted by a cofactor-torsion point: on the curve, outside the subgroup
+            let shifted = (pp + torsion).to_affine().to_bytes().as_ref().to_vec();
+            m.push((format!("el{i}/group->plus-torsion"), Mutation::Replace { off: *off, bytes: shifted, class: "group->plus-torsion" }));
         } else {
             let v = BigUint::from_bytes_le(cur);
             let enc = |x: &BigUint| {
@@ -410,7 +443,7 @@ fn main() {
     stdlib::run(&mut cx);
     let orig = cx.class_count("mutations:original:accept");
     cx.require(orig as usize == subjects.len() && orig > 0, "every unmutated proof must be accepted");
-    for c in ["class:group->neg", "class:group->off-curve", "class:group->on-curve-not-in-subgroup", "class:scalar+1", "class:scalar->noncanonical(s+r)", "class:append-bytes", "class:instance+1", "class:committed-instance-edit", "class:wrong-vk:one-fixed-cell-changed", "class:wrong-vk:other-k", "class:wrong-transcript-hash", "class:instance-move-column"] {
+    for c in ["class:group->neg", "class:group->off-curve", "class:group->on-curve-not-in-subgroup", "class:group->plus-torsion", "class:scalar+1", "class:scalar->noncanonical(s+r)", "class:append-bytes", "class:instance+1", "class:committed-instance-edit", "class:wrong-vk:one-fixed-cell-changed", "class:wrong-vk:other-k", "class:wrong-transcript-hash", "class:instance-move-column"] {
         let n = cx.counter_value(c);
         cx.require(n > 0, &format!("mutation class {c} was never exercised"));
     }
